@@ -311,6 +311,8 @@ class Woven:
                 c = match_close(self.ct, b)
                 if self.ct[c][2] in done:
                     continue
+                if any(r.start <= self.ct[c][2] < r.end for r in self.repls):
+                    continue   # the call site was rewritten by a replacement rule, which supplies the argument itself
                 empty = c == b + 1
                 trailing = self.ct[c - 1][1] == ','
                 self._ins(self.ct[c][2], ('' if empty or trailing else ', ') + text)
